@@ -376,6 +376,37 @@ fn check_state(ps: &PolicySet, m: &Model, reqs: &[(cedar_policy::Request, cedar_
             return;
         }
     }
+    // what each policy *says it is*: its own JSON and its own text, read back as static policies, mean the same
+    for (how, render) in [("to_json", true), ("Display", false)] {
+        let mut said = PolicySet::new();
+        let mut complete = true;
+        for p in ps.policies() {
+            let back = if render {
+                p.to_json().ok().and_then(|j| Policy::from_json(Some(p.id().clone()), j).ok())
+            } else {
+                Policy::parse(Some(p.id().clone()), p.to_string()).ok()
+            };
+            match back {
+                Some(q) if said.add(q.clone()).is_ok() => {}
+                _ => {
+                    complete = false;
+                    break;
+                }
+            }
+        }
+        if !complete {
+            rec.label(format!("rendering-skipped:{how}"));
+            continue;
+        }
+        for (rq, ents) in reqs {
+            let a: Norm = norm(&auth.is_authorized(rq, &said, ents), &ident);
+            let c: Norm = norm(&auth.is_authorized(rq, &fresh, ents), &ident);
+            if a != c {
+                rec.fail(format!("rendering:{how}"), format!("step {step}: the policies as rendered by their own {how} answer {a:?}; the static set written out from the successful operations answers {c:?}\n{}", said));
+                return;
+            }
+        }
+    }
 }
 
 fn history(t: &mut Tape, rec: &mut Rec<'_>) {
